@@ -1,6 +1,6 @@
 (* Proofs about Model/ExecModel.v (C17). *)
 From Coq Require Import List Arith Bool Lia.
-From HV Require Import Spec.ExecSpec Gen.GenSolveLow Model.ExecModel.
+From HV Require Import Spec.ExecSpec Gen.GenSolveLow Gen.GenCancel Model.ExecModel.
 Import ListNotations.
 
 (* ------------------------------------------------------------------ list helpers *)
@@ -50,6 +50,30 @@ Proof.
   - destruct (remove1 j l) eqn:E; try discriminate. inversion H; subst. simpl. f_equal. auto.
 Qed.
 
+(* ------------------------------------------------------------------ the exception paths of cancel() / run()
+   Obligations on the lists regenerated from processes.py (Gen/GenCancel.v): the exception that
+   the grace-period wait raises for a process that ignored SIGTERM is suppressed on the spot,
+   so cancel() goes on to the force kill and never raises; the exception that communicate()
+   raises at the time limit is caught and stored by run(). *)
+Lemma grace_suppressed_true : grace_suppressed = true.
+Proof. reflexivity. Qed.
+Lemma timeout_caught_true : timeout_caught = true.
+Proof. reflexivity. Qed.
+
+Lemma survives_false jb : survives jb = false.
+Proof. unfold survives. rewrite grace_suppressed_true. apply andb_false_r. Qed.
+Lemma kill_raises_false jb : kill_raises jb = false.
+Proof. unfold kill_raises. rewrite survives_false. destruct (proc jb); reflexivity. Qed.
+
+(* hence cancel() is: a running process is dead afterwards, whether or not it ignores SIGTERM *)
+Definition kill0 (jb : job) : job :=
+  match proc jb with
+  | PRun => mkJob (tmo jb) (stub jb) (spc jb) (wpc jb) PDead (exc jb) (out jb) (sets jb)
+  | _ => jb
+  end.
+Lemma kill_unfold jb : kill jb = kill0 jb.
+Proof. unfold kill, kill0. rewrite survives_false. reflexivity. Qed.
+
 (* ------------------------------------------------------------------ inversion of step *)
 
 (* the job a label acts on *)
@@ -84,14 +108,15 @@ Definition job_trans (fl : bool) (l : label) (jb jb' : job) : Prop :=
                       jb' = set_w jb WFinally (proc jb) (Some ETimeout) (out jb) (sets jb)
   | LCommExc _ => wpc jb = WComm /\ jb' = set_w jb WFinally (proc jb) (Some EOther) (out jb) (sets jb)
   | LFinally _ => wpc jb = WFinally /\
-                  jb' = set_w (kill jb) WSetRes (proc (kill jb)) (exc (kill jb)) (out (kill jb)) (sets (kill jb))
+                  jb' = set_w (kill0 jb) WSetRes (proc (kill0 jb)) (exc (kill0 jb)) (out (kill0 jb)) (sets (kill0 jb))
   | LSetResult _ => wpc jb = WSetRes /\ jb' = set_w jb WDone (proc jb) (exc jb) (out jb) (S (sets jb))
-  | LSdCancel _ _ => jb' = kill jb
+  | LSdCancel _ _ => jb' = kill0 jb
   | _ => False
   end.
 
 Ltac step_inv :=
   repeat match goal with
+  | H : kill_raises _ && _ = true |- _ => rewrite kill_raises_false in H; discriminate
   | H : context [match ?x with _ => _ end] |- _ =>
       match type of H with
       | _ = Some _ => idtac
@@ -110,8 +135,8 @@ Lemma step_jobs st l st' :
   end.
 Proof.
   destruct l; simpl; unfold on_job, on_sd; simpl; intros H; try discriminate.
-  all: try (step_inv; simpl in *; eauto 10; fail).
-  all: try (step_inv; simpl in *; do 2 eexists; split; [first [eassumption|reflexivity]|]; split; [reflexivity|]; auto; fail).
+  all: try (step_inv; simpl in *; rewrite ?kill_unfold, ?timeout_caught_true; eauto 10; fail).
+  all: try (step_inv; simpl in *; rewrite ?kill_unfold, ?timeout_caught_true; do 2 eexists; split; [first [eassumption|reflexivity]|]; split; [reflexivity|]; auto; fail).
   step_inv; simpl in *. do 2 eexists; split; [first [eassumption|reflexivity]|]; split; [reflexivity|].
   repeat split; auto. apply Nat.eqb_neq; auto.
 Qed.
@@ -168,12 +193,13 @@ Definition job_ok (jb : job) : Prop :=
   | WSetRes => proc jb <> PRun /\ sets jb = 0 /\ started_spc (spc jb) /\ res_ok jb
   | WDone => proc jb <> PRun /\ sets jb = 1 /\
              (started_spc (spc jb) \/ spc jb = SGot (low_level jb)) /\ res_ok jb
+  | WDead => False      (* unreachable: cancel() never raises (kill_raises_false) *)
   end.
 
 Lemma job_trans_ok fl l jb jb' : job_ok jb -> job_trans fl l jb jb' -> job_ok jb'.
 Proof.
-  unfold job_ok, started_spc, res_ok, kill, low_level.
-  destruct jb as [t s w p e o n]; destruct l; simpl; intros Hok Ht; try contradiction.
+  unfold job_ok, started_spc, res_ok, kill0, low_level.
+  destruct jb as [t sb s w p e o n]; destruct l; simpl; intros Hok Ht; try contradiction.
   all: try (destruct ok).
   all: repeat match goal with H : _ /\ _ |- _ => destruct H end; subst; simpl in *.
   all: try (destruct fl); try (destruct w; simpl in *; try discriminate);
@@ -181,9 +207,9 @@ Proof.
   all: intuition (try congruence; try discriminate).
 Qed.
 
-Lemma init_jobs_ok tmos : Forall job_ok (map init_job tmos).
+Lemma init_jobs_ok cfgs : Forall job_ok (map init_job cfgs).
 Proof.
-  induction tmos; simpl; constructor; auto.
+  induction cfgs; simpl; constructor; auto.
   unfold job_ok; simpl. repeat split; auto; congruence.
 Qed.
 
@@ -216,7 +242,7 @@ Proof. destruct l; simpl; lia. Qed.
 Lemma job_trans_sets fl l jb jb' i :
   job_of l = Some i -> job_trans fl l jb jb' -> sets jb' = sets jb + deliveries i [l].
 Proof.
-  destruct jb as [t s w p e o n]; unfold kill; destruct l; simpl; intros Hi Ht; try discriminate;
+  destruct jb as [t sb s w p e o n]; unfold kill0; destruct l; simpl; intros Hi Ht; try discriminate;
     inversion Hi; subst;
     repeat match goal with H : _ /\ _ |- _ => destruct H end; subst; simpl in *; try lia.
   - destruct ok; simpl; lia.
@@ -255,14 +281,14 @@ Qed.
 Lemma job_ok_sets jb : job_ok jb -> sets jb <= 1.
 Proof. unfold job_ok; destruct (wpc jb); intuition lia. Qed.
 
-Lemma init_sets tmos waits j : sets_of (init tmos waits) j = 0.
+Lemma init_sets cfgs waits j : sets_of (init cfgs waits) j = 0.
 Proof.
-  unfold sets_of, init; simpl. destruct (nth_error (map init_job tmos) j) eqn:E; auto.
+  unfold sets_of, init; simpl. destruct (nth_error (map init_job cfgs) j) eqn:E; auto.
   apply nth_error_In in E. apply in_map_iff in E. destruct E as (x & Hx & _). subst; auto.
 Qed.
 
-Lemma at_most_once tmos waits sched st j :
-  run (init tmos waits) sched = Some st -> deliveries j sched <= 1.
+Lemma at_most_once cfgs waits sched st j :
+  run (init cfgs waits) sched = Some st -> deliveries j sched <= 1.
 Proof.
   intros H. pose proof (run_sets _ _ _ j H) as Hs. rewrite init_sets in Hs.
   assert (Hok : Forall job_ok (jobs st)) by (eapply run_ok; [|eauto]; apply init_jobs_ok).
@@ -270,8 +296,8 @@ Proof.
   pose proof (job_ok_sets _ (Forall_nth _ _ _ _ Hok E)). lia.
 Qed.
 
-Lemma sets_at_most_once tmos waits sched st j jb :
-  run (init tmos waits) sched = Some st -> nth_error (jobs st) j = Some jb -> sets jb <= 1.
+Lemma sets_at_most_once cfgs waits sched st j jb :
+  run (init cfgs waits) sched = Some st -> nth_error (jobs st) j = Some jb -> sets jb <= 1.
 Proof.
   intros H E. apply job_ok_sets. eapply Forall_nth; [|eauto]. eapply run_ok; [|eauto]. apply init_jobs_ok.
 Qed.
@@ -283,7 +309,7 @@ Definition tmo_inv (jb : job) : Prop :=
 
 Lemma job_trans_tmo fl l jb jb' : tmo_inv jb -> job_trans fl l jb jb' -> tmo_inv jb'.
 Proof.
-  unfold tmo_inv, kill. destruct jb as [t s w p e o n]; destruct l; simpl; intros Hi Ht; try contradiction.
+  unfold tmo_inv, kill0. destruct jb as [t sb s w p e o n]; destruct l; simpl; intros Hi Ht; try contradiction.
   all: try (destruct ok).
   all: repeat match goal with H : _ /\ _ |- _ => destruct H end; subst; simpl in *.
   all: try (destruct p; simpl); intuition (try congruence; try discriminate).
@@ -317,13 +343,13 @@ Proof.
   - subst. unfold tmo_inv; simpl; auto.
 Qed.
 
-Lemma timeout_unknown tmos waits sched st j jb :
-  run (init tmos waits) sched = Some st -> In (LCommTimeout j) sched ->
+Lemma timeout_unknown cfgs waits sched st j jb :
+  run (init cfgs waits) sched = Some st -> In (LCommTimeout j) sched ->
   nth_error (jobs st) j = Some jb ->
   exc jb = Some ETimeout /\ forall v, spc jb = SGot v -> v = gen_timeout_verdict.
 Proof.
   intros H Hin Hn. apply in_split in Hin. destruct Hin as (pre & post & ->).
-  rewrite run_app in H. destruct (run (init tmos waits) pre) eqn:E1; try discriminate.
+  rewrite run_app in H. destruct (run (init cfgs waits) pre) eqn:E1; try discriminate.
   cbn [run] in H. destruct (step s (LCommTimeout j)) eqn:E2; try discriminate.
   pose proof (run_tmo _ _ _ _ (step_timeout_tmo _ _ _ E2) H) as (jb0 & Hn0 & He & Hw).
   rewrite Hn in Hn0; inversion Hn0; subst jb0. split; auto.
@@ -350,8 +376,8 @@ Lemma job_trans_rank fl l jb jb' :
        | _ => pre_append jb' <= pre_append jb
        end.
 Proof.
-  unfold rank_job, pre_append, kill.
-  destruct jb as [t s w p e o n]; destruct l; simpl; intros Ht; try contradiction.
+  unfold rank_job, pre_append, kill0.
+  destruct jb as [t sb s w p e o n]; destruct l; simpl; intros Ht; try contradiction.
   all: try (destruct ok).
   all: repeat match goal with H : _ /\ _ |- _ => destruct H end; subst; simpl in *.
   all: try (destruct fl); try (destruct p; simpl in *); try (destruct s; simpl in *); try (destruct w; simpl in *); try lia.
@@ -433,20 +459,20 @@ Proof.
   induction l; simpl; intros H; [lia|]. rewrite H, IHl; auto. lia.
 Qed.
 
-Lemma rank_init tmos waits :
-  rank (init tmos waits) = 17 * length tmos + (6 + length tmos) * length waits.
+Lemma rank_init cfgs waits :
+  rank (init cfgs waits) = 17 * length cfgs + (6 + length cfgs) * length waits.
 Proof.
   unfold rank, phi, init; simpl.
   rewrite (sum_const rank_job 17), (sum_const pre_append 1), !map_length.
-  - rewrite (sum_const _ (6 + 1 * length tmos)), map_length; [lia|].
+  - rewrite (sum_const _ (6 + 1 * length cfgs)), map_length; [lia|].
     intros x Hx. apply in_map_iff in Hx. destruct Hx as (w & <- & _). reflexivity.
   - intros x Hx. apply in_map_iff in Hx. destruct Hx as (w & <- & _). reflexivity.
   - intros x Hx. apply in_map_iff in Hx. destruct Hx as (w & <- & _). reflexivity.
 Qed.
 
-Lemma schedules_bounded tmos waits sched st :
-  run (init tmos waits) sched = Some st ->
-  length sched <= 17 * length tmos + (6 + length tmos) * length waits.
+Lemma schedules_bounded cfgs waits sched st :
+  run (init cfgs waits) sched = Some st ->
+  length sched <= 17 * length cfgs + (6 + length cfgs) * length waits.
 Proof. intros H. apply run_rank in H. rewrite rank_init in H. lia. Qed.
 
 (* ------------------------------------------------------------------ the refuted clause (F6): witness *)
@@ -468,7 +494,7 @@ Definition returned (st : state) (k : nat) : bool :=
   end.
 
 Lemma process_after_shutdown_witness :
-  exists st, run (init [false] [false]) witness_process = Some st /\
+  exists st, run (init [(false, false)] [false]) witness_process = Some st /\
              ~ accepted_after_return witness_process /\ spawned_after_return witness_process /\
              returned st 0 = true /\ running st 0 = true.
 Proof.
@@ -533,7 +559,7 @@ Lemma job_trans_spc fl l jb jb' :
    | LSubAppend _ => post_append (spc jb') = true
    | _ => True end).
 Proof.
-  unfold kill. destruct jb as [t s w p e o n]; destruct l; simpl; intros Ht; try contradiction.
+  unfold kill0. destruct jb as [t sb s w p e o n]; destruct l; simpl; intros Ht; try contradiction.
   all: try (destruct ok).
   all: repeat match goal with H : _ /\ _ |- _ => destruct H end; subst; simpl in *.
   all: try (destruct fl); try (destruct p; simpl in *); auto.
@@ -591,7 +617,7 @@ Proof.
   - rewrite H; eauto.
 Qed.
 
-Lemma init_ginv tmos waits : ginv (init tmos waits).
+Lemma init_ginv cfgs waits : ginv (init cfgs waits).
 Proof.
   constructor; simpl.
   - apply init_jobs_ok.
@@ -794,12 +820,12 @@ Proof.
 Qed.
 
 Lemma worker_moves st j jb :
-  nth_error (jobs st) j = Some jb -> wpc jb <> WNew -> wpc jb <> WDone -> can_step st.
+  nth_error (jobs st) j = Some jb -> wpc jb <> WNew -> wpc jb <> WDone -> wpc jb <> WDead -> can_step st.
 Proof.
-  intros Hn H1 H2. destruct (wpc jb) eqn:Ew; try congruence.
+  intros Hn H1 H2 H3. destruct (wpc jb) eqn:Ew; try congruence.
   - fire (LPopen j true). rewrite Hn, Ew. eauto.
   - fire (LCommExc j). rewrite Hn, Ew. eauto.
-  - fire (LFinally j). rewrite Hn, Ew. eauto.
+  - fire (LFinally j). rewrite Hn, Ew, kill_raises_false. simpl. eauto.
   - fire (LSetResult j). rewrite Hn, Ew. eauto.
 Qed.
 
@@ -827,6 +853,7 @@ Proof.
     + eapply worker_moves; eauto; congruence.
     + assert (Hs : sets jb = 1) by (unfold job_ok in Hok; rewrite Ew in Hok; intuition).
       fire (LSubWait j). rewrite Hn, Es, Hs. simpl. eauto.
+    + exfalso. unfold job_ok in Hok. rewrite Ew in Hok. exact Hok.
   - fire (LSubUnlock j). rewrite Hn, Es. eauto.
 Qed.
 
@@ -854,15 +881,15 @@ Proof.
       fire (LSdJoin k). rewrite Hn, Ed. unfold finished. rewrite Hj, Hs. simpl. eauto.
 Qed.
 
-Definition reachable (tmos waits : list bool) (st : state) : Prop :=
-  exists sched, run (init tmos waits) sched = Some st.
+Definition reachable (cfgs : list (bool * bool)) (waits : list bool) (st : state) : Prop :=
+  exists sched, run (init cfgs waits) sched = Some st.
 
-Lemma reachable_ginv tmos waits st : reachable tmos waits st -> ginv st.
+Lemma reachable_ginv cfgs waits st : reachable cfgs waits st -> ginv st.
 Proof. intros (sched & H). eapply run_ginv; [|eauto]. apply init_ginv. Qed.
 
 (* deadlock-freedom *)
-Lemma no_deadlock tmos waits st :
-  reachable tmos waits st ->
+Lemma no_deadlock cfgs waits st :
+  reachable cfgs waits st ->
   (exists j jb, nth_error (jobs st) j = Some jb /\ ~ job_final jb) \/
   (exists k s, nth_error (sds st) k = Some s /\ ~ sd_final s) ->
   exists l st', step st l = Some st'.
@@ -874,8 +901,8 @@ Qed.
 
 (* in a quiescent state every submit() call has been rejected or its waiter has its result,
    delivered exactly once; no process runs under a finished job; every shutdown() call ended *)
-Lemma quiescent_exactly_once tmos waits sched st :
-  run (init tmos waits) sched = Some st -> (forall l, step st l = None) ->
+Lemma quiescent_exactly_once cfgs waits sched st :
+  run (init cfgs waits) sched = Some st -> (forall l, step st l = None) ->
   (forall j jb, nth_error (jobs st) j = Some jb ->
      (spc jb = SRejected /\ wpc jb = WNew /\ deliveries j sched = 0 /\ proc jb = PNone) \/
      (spc jb = SGot (low_level jb) /\ wpc jb = WDone /\ deliveries j sched = 1 /\ proc jb <> PRun)) /\
@@ -963,22 +990,22 @@ Proof.
   exists ext, st'. split; auto. apply enabled_nil_quiescent; auto.
 Qed.
 
-Lemma no_deadlock_run tmos waits sched st :
-  run (init tmos waits) sched = Some st ->
+Lemma no_deadlock_run cfgs waits sched st :
+  run (init cfgs waits) sched = Some st ->
   (exists j jb, nth_error (jobs st) j = Some jb /\ spc jb <> SRejected /\ (forall v, spc jb <> SGot v)) \/
   (exists k s, nth_error (sds st) k = Some s /\ dpc s <> DDone) ->
   exists l st', step st l = Some st'.
 Proof.
-  intros Hrun Hc. apply (no_deadlock tmos waits); [exists sched; auto|].
+  intros Hrun Hc. apply (no_deadlock cfgs waits); [exists sched; auto|].
   destruct Hc as [(j & jb & Hn & H1 & H2) | (k & s & Hn & H1)]; [left|right].
   - exists j, jb. split; auto. unfold job_final. destruct (spc jb); auto; try congruence.
   - exists k, s. split; auto. unfold sd_final. destruct (dpc s); auto; congruence.
 Qed.
 
-Lemma wait_returns tmos waits sched st :
-  run (init tmos waits) sched = Some st ->
+Lemma wait_returns cfgs waits sched st :
+  run (init cfgs waits) sched = Some st ->
   exists ext st',
-    run (init tmos waits) (sched ++ ext) = Some st' /\ (forall l, step st' l = None) /\
+    run (init cfgs waits) (sched ++ ext) = Some st' /\ (forall l, step st' l = None) /\
     (forall j jb, nth_error (jobs st') j = Some jb ->
        (spc jb = SRejected /\ deliveries j (sched ++ ext) = 0) \/
        (spc jb = SGot (low_level jb) /\ deliveries j (sched ++ ext) = 1)) /\
@@ -986,7 +1013,7 @@ Lemma wait_returns tmos waits sched st :
 Proof.
   intros Hrun. destruct (extends_to_quiescent st) as (ext & st' & He & Hq).
   exists ext, st'.
-  assert (Hr : run (init tmos waits) (sched ++ ext) = Some st') by (rewrite run_app, Hrun; auto).
+  assert (Hr : run (init cfgs waits) (sched ++ ext) = Some st') by (rewrite run_app, Hrun; auto).
   destruct (quiescent_exactly_once _ _ _ _ Hr Hq) as (Hj & Hs).
   repeat split; auto.
   intros j jb Hn. destruct (Hj j jb Hn) as [(A & _ & B & _) | (A & _ & B & _)]; auto.
@@ -994,8 +1021,8 @@ Qed.
 
 (* ------------------------------------------------------------------ statements in the form used by Props/C17.v *)
 
-Lemma timeout_unknown_spec tmos waits sched st j jb :
-  run (init tmos waits) sched = Some st -> timed_out j sched ->
+Lemma timeout_unknown_spec cfgs waits sched st j jb :
+  run (init cfgs waits) sched = Some st -> timed_out j sched ->
   nth_error (jobs st) j = Some jb ->
   exc jb = Some ETimeout /\
   forall v, spc jb = SGot v -> v = spec_timeout_verdict /\ v <> VUnsat.
@@ -1005,12 +1032,12 @@ Proof.
 Qed.
 
 Lemma no_process_after_shutdown_refuted :
-  exists tmos waits sched st k j,
-    run (init tmos waits) sched = Some st /\ ~ accepted_after_return sched /\
+  exists cfgs waits sched st k j,
+    run (init cfgs waits) sched = Some st /\ ~ accepted_after_return sched /\
     spawned_after_return sched /\ returned st k = true /\ running st j = true.
 Proof.
   destruct process_after_shutdown_witness as (st & Hr & Ha & Hs & Hk & Hj).
-  exists [false], [false], witness_process, st, 0, 0. auto.
+  exists [(false, false)], [false], witness_process, st, 0, 0. auto.
 Qed.
 
 
@@ -1143,7 +1170,7 @@ Lemma job_trans_closed l jb jb' :
   job_trans true l jb jb' -> spc jb <> SAppend -> spc jb <> SStart ->
   spc jb' <> SAppend /\ spc jb' <> SStart.
 Proof.
-  unfold kill. destruct jb as [t s w p e o n]; destruct l; simpl; intros Ht H1 H2; try contradiction.
+  unfold kill0. destruct jb as [t sb s w p e o n]; destruct l; simpl; intros Ht H1 H2; try contradiction.
   all: try (destruct ok).
   all: repeat match goal with H : _ /\ _ |- _ => destruct H end; subst; simpl in *.
   all: try (destruct p; simpl in *); split; congruence.
@@ -1153,13 +1180,13 @@ Lemma job_trans_post fl l jb jb' :
   job_trans fl l jb jb' -> post_append (spc jb') = true ->
   post_append (spc jb) = true \/ exists i, l = LSubAppend i.
 Proof.
-  unfold kill. destruct jb as [t s w p e o n]; destruct l; simpl; intros Ht Hp; try contradiction.
+  unfold kill0. destruct jb as [t sb s w p e o n]; destruct l; simpl; intros Ht Hp; try contradiction.
   all: try (destruct ok).
   all: repeat match goal with H : _ /\ _ |- _ => destruct H end; subst; simpl in *.
   all: try (destruct fl; simpl in * ); try (destruct p; simpl in * ); eauto; try discriminate.
 Qed.
 
-Lemma init_sinv tmos waits : sinv (init tmos waits).
+Lemma init_sinv cfgs waits : sinv (init cfgs waits).
 Proof.
   constructor; simpl.
   - intros k s Hn Hd. apply nth_error_In, in_map_iff in Hn. destruct Hn as (x & <- & _). exfalso; apply Hd; reflexivity.
@@ -1251,7 +1278,7 @@ Qed.
 
 Definition inv (st : state) : Prop := ginv st /\ sinv st.
 
-Lemma init_inv tmos waits : inv (init tmos waits).
+Lemma init_inv cfgs waits : inv (init cfgs waits).
 Proof. split; [apply init_ginv | apply init_sinv]. Qed.
 
 Lemma step_inv_pres st l st' : inv st -> step st l = Some st' -> inv st'.
@@ -1273,8 +1300,8 @@ Qed.
 
 (* (1) once any shutdown() call -- of either kind -- has taken the lock, no job is registered
    or accepted any more *)
-Lemma closed_after tmos waits pre st l0 k :
-  run (init tmos waits) pre = Some st -> In l0 pre -> sd_of l0 = Some k -> (forall k', l0 <> LSdSet k') ->
+Lemma closed_after cfgs waits pre st l0 k :
+  run (init cfgs waits) pre = Some st -> In l0 pre -> sd_of l0 = Some k -> (forall k', l0 <> LSdSet k') ->
   inv st /\ closed st.
 Proof.
   intros H Hin Hk Hl. split; [eapply run_inv; [apply init_inv|eauto]|].
@@ -1282,8 +1309,8 @@ Proof.
   eapply run_closed; [|eauto]. eapply step_closes; eauto.
 Qed.
 
-Lemma no_accept_after_lock tmos waits pre l post st k :
-  run (init tmos waits) (pre ++ l :: post) = Some st -> In (LSdAcquire k) pre ->
+Lemma no_accept_after_lock cfgs waits pre l post st k :
+  run (init cfgs waits) (pre ++ l :: post) = Some st -> In (LSdAcquire k) pre ->
   forall j, l <> LSubAppend j /\ l <> LSubStart j.
 Proof.
   intros H Hin j. destruct (run_split _ _ _ _ _ H) as (s1 & s2 & Ha & Hs & _).
@@ -1292,8 +1319,8 @@ Proof.
     destruct (s_closed _ S C _ _ Hn); congruence.
 Qed.
 
-Lemma no_accept_after_shutdown tmos waits sched st :
-  run (init tmos waits) sched = Some st -> ~ accepted_after_return sched.
+Lemma no_accept_after_shutdown cfgs waits sched st :
+  run (init cfgs waits) sched = Some st -> ~ accepted_after_return sched.
 Proof.
   intros H (pre & post & j & k & -> & Hin).
   destruct (run_split _ _ _ _ _ H) as (s1 & s2 & Ha & Hs & _).
@@ -1317,8 +1344,8 @@ Proof.
     + rewrite E; auto.
 Qed.
 
-Lemma swait_of tmos waits sched st k s :
-  run (init tmos waits) sched = Some st -> nth_error (sds st) k = Some s -> nth_error waits k = Some (swait s).
+Lemma swait_of cfgs waits sched st k s :
+  run (init cfgs waits) sched = Some st -> nth_error (sds st) k = Some s -> nth_error waits k = Some (swait s).
 Proof.
   intros H Hn. apply run_swait in H. simpl in H. rewrite map_map in H. simpl in H. rewrite map_id in H.
   rewrite <- H. apply map_nth_error; auto.
@@ -1340,8 +1367,8 @@ Proof.
   destruct (wpc jb); intuition congruence.
 Qed.
 
-Lemma wait_shutdown_complete tmos waits sched st k :
-  run (init tmos waits) sched = Some st -> nth_error waits k = Some true -> returned st k = true ->
+Lemma wait_shutdown_complete cfgs waits sched st k :
+  run (init cfgs waits) sched = Some st -> nth_error waits k = Some true -> returned st k = true ->
   forall j, running st j = false /\ (accepted j sched -> deliveries j sched = 1).
 Proof.
   intros H Hw Hr j.
@@ -1387,7 +1414,7 @@ Lemma job_trans_spawned fl l jb jb' :
   spawned_b jb' = true /\ (proc jb <> PRun -> proc jb' <> PRun) /\
   (match l with LSdCancel _ _ => proc jb' <> PRun | _ => True end).
 Proof.
-  unfold kill, spawned_b. destruct jb as [t s w p e o n]; destruct l; simpl; intros Ht Hs; try contradiction.
+  unfold kill0, spawned_b. destruct jb as [t sb s w p e o n]; destruct l; simpl; intros Ht Hs; try contradiction.
   all: try (destruct ok).
   all: repeat match goal with H : _ /\ _ |- _ => destruct H end; subst; simpl in *; try discriminate.
   all: try (destruct p; simpl in * ); repeat split; auto; try congruence.
@@ -1441,8 +1468,8 @@ Proof.
   - reflexivity.
 Qed.
 
-Lemma cancel_kills tmos waits sched st j :
-  run (init tmos waits) sched = Some st -> cancelled_while_spawned j sched -> running st j = false.
+Lemma cancel_kills cfgs waits sched st j :
+  run (init cfgs waits) sched = Some st -> cancelled_while_spawned j sched -> running st j = false.
 Proof.
   intros H (pre & post & k & -> & Hin).
   destruct (run_split _ _ _ _ _ H) as (s1 & s2 & Ha & Hs & Hb).
@@ -1497,8 +1524,8 @@ Proof.
       * contradiction.
 Qed.
 
-Lemma shutdown_kills_spawned tmos waits sched st k j :
-  run (init tmos waits) sched = Some st -> spawned_before_acquire k j sched ->
+Lemma shutdown_kills_spawned cfgs waits sched st k j :
+  run (init cfgs waits) sched = Some st -> spawned_before_acquire k j sched ->
   returned st k = true -> running st j = false.
 Proof.
   intros H (pre & post & -> & Hin) Hr.
@@ -1529,8 +1556,8 @@ Proof.
 Qed.
 
 (* (4) shutdown() never terminates with an exception *)
-Lemma shutdown_never_raises tmos waits sched st k :
-  run (init tmos waits) sched = Some st -> ~ shutdown_raised k sched.
+Lemma shutdown_never_raises cfgs waits sched st k :
+  run (init cfgs waits) sched = Some st -> ~ shutdown_raised k sched.
 Proof.
   intros H Hin. destruct (run_In _ _ _ _ H Hin) as (a & b & s1 & s2 & _ & _ & Hs & _).
   simpl in Hs. discriminate.
@@ -1547,12 +1574,12 @@ Proof.
   destruct (step st0 l) eqn:E; try discriminate. intros H; inversion H; subst. eauto.
 Qed.
 
-Lemma running_spawned tmos waits sched : forall st j,
-  run (init tmos waits) sched = Some st -> running st j = true -> In (LPopen j true) sched.
+Lemma running_spawned cfgs waits sched : forall st j,
+  run (init cfgs waits) sched = Some st -> running st j = true -> In (LPopen j true) sched.
 Proof.
   induction sched as [|l sched IH] using rev_ind; intros st j H Hr.
   - simpl in H. inversion H; subst. unfold running, init in Hr. simpl in Hr.
-    destruct (nth_error (map init_job tmos) j) eqn:E; try discriminate.
+    destruct (nth_error (map init_job cfgs) j) eqn:E; try discriminate.
     apply nth_error_In, in_map_iff in E. destruct E as (x & <- & _). discriminate.
   - destruct (run_snoc _ _ _ _ H) as (st0 & H0 & Hs). apply in_or_app.
     destruct (running st0 j) eqn:Hr0; [left; eauto|]. right.
@@ -1560,15 +1587,15 @@ Proof.
     destruct (step_job_at _ _ _ _ _ Hs Hn) as [(Ho & _) | (Hje & jb & Ho & Ht)].
     + rewrite Ho in Hr0. congruence.
     + rewrite Ho in Hr0. clear - Hje Ht Hr Hr0.
-      destruct jb as [t s w p e o n]; unfold kill in Ht; destruct l; simpl in *; try contradiction;
+      destruct jb as [t sb s w p e o n]; unfold kill0 in Ht; destruct l; simpl in *; try contradiction;
         inversion Hje; subst;
         try (destruct ok);
         repeat match goal with H : _ /\ _ |- _ => destruct H end; subst; simpl in *;
         try (destruct p; simpl in * ); try discriminate; auto.
 Qed.
 
-Lemma every_registered_cancelled tmos waits k sched : forall st s,
-  run (init tmos waits) sched = Some st -> nth_error (sds st) k = Some s -> swait s = false ->
+Lemma every_registered_cancelled cfgs waits k sched : forall st s,
+  run (init cfgs waits) sched = Some st -> nth_error (sds st) k = Some s -> swait s = false ->
   match dpc s with
   | DCancel pend => forall j, In j (reg st) -> In j pend \/ In (LSdCancel k j) sched
   | DDone => forall j, In j (reg st) -> In (LSdCancel k j) sched
@@ -1608,8 +1635,8 @@ Proof.
         -- congruence.
 Qed.
 
-Lemma nowait_only_late_spawn tmos waits sched st k j :
-  run (init tmos waits) sched = Some st -> nth_error waits k = Some false ->
+Lemma nowait_only_late_spawn cfgs waits sched st k j :
+  run (init cfgs waits) sched = Some st -> nth_error waits k = Some false ->
   returned st k = true -> running st j = true ->
   exists pre mid post, sched = pre ++ LSdCancel k j :: mid ++ LPopen j true :: post.
 Proof.
@@ -1632,3 +1659,7 @@ Proof.
     congruence.
   - apply in_split in Hp. destruct Hp as (mid & post & ->). exists pre, mid, post. reflexivity.
 Qed.
+
+(* ------------------------------------------------------------------ cancel(): kill escalation and exception paths *)
+Lemma kill_kills jb : proc jb = PRun -> proc (kill jb) = PDead.
+Proof. intros H. rewrite kill_unfold. unfold kill0. rewrite H. reflexivity. Qed.
